@@ -475,6 +475,21 @@ def run(run, tier, seed, replay=None):
              nontrivial=lambda j: sum(D.features(j["design"]).values()) >= 3,
              rule="non-trivial = at least 3 of {refs, no-connects, arrays, slices, concats, hierarchy, external modules, negative steps}; distinct by design")
 
+    # ---- hierarchy flattening and the built-in generators (their bodies iterate over the unit's ports / the nets)
+    from . import c16
+    n = 40 if quick else 300
+    jobs = []
+    for k in range(n):
+        r = core.rng(seed, "C12", "flatten", k)
+        jobs.append(dict(kind="flat", design=c16.gen_hier(r, size=r.choice([2, 3]))))
+    for nser in ((2, 3) if quick else (2, 3, 4, 6)):
+        jobs += [dict(kind="builtin", gen="MosStack", n=nser), dict(kind="builtin", gen="SeriesMos", n=nser, pair=["d", "s"]),
+                 dict(kind="builtin", gen="SeriesMos", n=nser, pair=["g", "b"]), dict(kind="builtin", gen="SeriesExt", n=nser, pair=["b", "d"]),
+                 dict(kind="builtin", gen="Wrapper", n=nser)]
+    evaluate(run, "flatten_builtins", jobs, hashseeds, seed, 25 if quick else 50,
+             nontrivial=lambda j: j["kind"] == "builtin" or len(j["design"]["mods"]) >= 3,
+             rule="non-trivial = a built-in generator call with nser >= 2, or a hierarchy of at least three modules handed to hdl21.flatten; distinct by job")
+
     # ---- examples
     jobs = [dict(kind="example", name=e) for e in EXAMPLES]
     jobs += [dict(kind="pdk", pdk=p, family=f) for p in PDKS for f in ("CORE", "NONE")]
